@@ -17,6 +17,8 @@ func main() {
 		cmdVerify(os.Args[2:])
 	case "check":
 		cmdCheck(os.Args[2:])
+	case "replay":
+		cmdReplay(os.Args[2:])
 	default:
 		fmt.Fprintln(os.Stderr, "unknown command", os.Args[1])
 		os.Exit(2)
